@@ -8,7 +8,7 @@ mkdir -p /var/tmp/vs && rsync -a --exclude _build --exclude .git /repo/ $D/
 if ! (cd $D && patch -p1 -s < "$PATCH"); then echo "PATCH-FAILED $PATCH"; rm -rf $D; exit 3; fi
 cd /verif
 CK=$(echo $D | cksum | cut -d' ' -f1)
-VERIF_REPO=$D ./check $ID --tier $TIER > /tmp/mut-$$.out 2>&1; rc=$?
+VERIF_SHRINK_BUDGET=${VERIF_SHRINK_BUDGET:-40} VERIF_REPO=$D ./check $ID --tier $TIER > /tmp/mut-$$.out 2>&1; rc=$?
 grep -E "VIOLATION|BROKEN|key=|evaluations" /tmp/mut-$$.out | head -8
 rm -rf $D /verif/build/alt-$CK /tmp/mut-$$.out
 if [ $rc -eq 1 ]; then echo "KILLED $ID $(basename $PATCH)"; exit 0; fi
